@@ -38,7 +38,8 @@ RULE = ('fault-position sweep over usage scripts of the two real transports: ser
         'transport, 30-45 s of virtual time for the ping loop with scripted random draws; injected faults on the n-th connect / '
         'sendall / recv_into (exception, EOF, refusal, hang, write stalled after half a frame, slow connect that fails or succeeds); '
         'peers that accept writes slowly (half of the buffer at once, the rest 1-14 ticks later) so that deadlines expire inside a '
-        'partially written frame; quick: seeded sample, thorough: '
+        'partially written frame; serial second incarnations (Close() or a failure, re-Open, then failures there); failure '
+        'callbacks that retry on the same transport or Close() it; quick: seeded sample, thorough: '
         'seeded sample + exhaustive grid (every I/O operation index of the base scripts x every fault kind x in-flight set). '
         'non-trivial = a connection failure or time-out happened; distinct by canonical JSON of (case, observation)')
 TRUSTED = ['simulation world harness/vworld.py (virtual clock, fake gsocket) and harness/c08_drv.py (fake socket with hang / slow '
@@ -51,6 +52,12 @@ ASSUMPTIONS = ['gevent greenlets only switch at blocking calls; a greenlet made 
                'owner contract (watermark pool / resurrector): requests are issued only after Open() completed, a serial sink is '
                'not re-opened while it carries a request, Close() is not called while a connect is in progress, a mux sink is '
                'opened once (a closed MuxSocketTransportSink cannot be re-opened), call ids / sink stacks are not reused',
+               'a closed or faulted serial sink may be opened again (incarnations): the monitor demands the fault signal for every '
+               'failure of the first incarnation and of a re-opened one once its own connect succeeded; on /repo a REFUSED re-Open '
+               'of a closed serial sink reports the failure through the Open() result only (its _state is still Closed, so _Fault '
+               'returns early) - C08_serial_open_fail states exactly that',
+               'callers may re-enter the transport from inside a failure callback (retry on the same sink, Close()); such requests '
+               'are not subject to the open-and-idle oracle (the transport has just closed its socket), all other oracles apply',
                'a connect that meets silence ends with the kernel time-out (slow failure); a connect blocked for ever is treated '
                'as still in progress (the transport then reports Open with the request still in flight: not idle)',
                'timers fire at their virtual due time (Mux.step MTick cannot skip an armed timer)',
@@ -72,7 +79,8 @@ MANIFEST = {
              'open-after-shutdown defect F26 was repaired). The transcription is compared slice by slice with the real transports on a fault-position '
              'sweep; an independent monitor checks the property statement on the event log.'),
     'note': ('Trusted: Coq kernel; simulation world, scripted peers, logging proxies; greenlet atomicity between blocking calls. '
-             'Owner contract (requests only after Open() completed, sinks opened once, no Close() during a connect) is a hypothesis '
+             'Owner contract (requests only after Open() completed, no Open() on a serial sink that carries a request - re-opening a '
+             'closed serial sink is allowed and covered -, mux sinks opened once, no Close() during a connect) is a hypothesis '
              'of the serial theorems (Serial.run enforces usage_ok). All theorems closed under the global context.'),
     'technique': 'Coq proof (inductive invariants over all label sequences of two transition systems) + trace-driven differential execution model vs code',
     'design_ref': 'DESIGN.md section 5, C08; section 6, F7, F21 (F8)',
@@ -110,6 +118,8 @@ MUX_PLANS = [{'act': 'reply', 'delay': 0}, {'act': 'reply', 'delay': 2}, {'act':
 CONNECT_FAULTS = ['refuse', 'exc', 'timedout', ['slow', 6, 0], ['slow', 3, 1], 'hang']
 SEND_FAULTS = ['exc', 'pipe', 'hang', 'parthang']
 RECV_FAULTS = ['exc', 'eof', 'hang']
+# what a call's owner does from inside its failure callback: nothing / retry on the same transport / Close() it
+ONFAIL = [None, None, None, None, None, 'retry', 'retry', 'close']
 
 
 def _gen_serial(r, idx):
@@ -131,10 +141,10 @@ def _gen_serial(r, idx):
     if r.random() < 0.4:
       sv['plan'][str(c)] = r.choice(SER_PLANS)
     first_settle = 0 if r.random() < 0.2 else 1
-    ops.append(['req', c, dl, first_settle])
+    ops.append(['req', c, dl, first_settle, 0, r.choice(ONFAIL)])
     if r.random() < 0.35:
       c += 1
-      ops.append(['req', c, r.choice([None, 5]), 1])
+      ops.append(['req', c, r.choice([None, 5]), 1, 0, r.choice(ONFAIL)])
     x = r.random()
     if x < 0.12:
       ops.append(['peer', r.choice(['close', 'reset'])])
@@ -146,11 +156,22 @@ def _gen_serial(r, idx):
     if r.random() < 0.25:
       ops.append(['open'])
       ops.append(['adv', 8])
+  if r.random() < 0.3:
+    # a second life: end the first one (owner's Close() or a connection failure), open again, time out / fail there
+    ops.append(r.choice([['close'], ['peer', 'close'], ['peer', 'reset'], ['close']]))
+    ops.append(['req', 60, None, 1])
+    ops.append(['adv', 4])
+    ops.append(['open'])
+    ops.append(['adv', 6])
+    for cc in (61, 62):
+      sv['plan'][str(cc)] = r.choice([{'act': 'drop'}, {'act': 'drop'}, {'act': 'reply', 'delay': 1}, {'act': 'close', 'delay': 1}])
+      ops.append(['req', cc, r.choice([4, 6, None]), 1, 0, r.choice(ONFAIL)])
+      ops.append(['adv', r.choice([4, 8, 12])])
   faults = []
   for _ in range(r.choice([0, 1, 1, 1, 2])):
     op = r.choice(['connect', 'send', 'recv', 'recv'])
     if op == 'connect':
-      faults.append({'op': op, 'nth': r.choice([1, 2, 2, 3]), 'what': r.choice(CONNECT_FAULTS)})
+      faults.append({'op': op, 'nth': r.choice([1, 2, 2, 3, 3, 4]), 'what': r.choice(CONNECT_FAULTS)})
     elif op == 'send':
       faults.append({'op': op, 'nth': r.choice([1, 2, 3]), 'what': r.choice(SEND_FAULTS)})
     else:
@@ -184,7 +205,7 @@ def _gen_mux(r, idx):
         sv['plan'][str(c)] = r.choice(MUX_PLANS)
       ev = 1 if r.random() < 0.4 else 0
       settle = 1 if (b == burst - 1 or r.random() < 0.4) else 0
-      ops.append(['req', c, None, settle, ev])
+      ops.append(['req', c, None, settle, ev, r.choice(ONFAIL)])
       if ev:
         issued.append(c)
       if ev and r.random() < 0.3:
@@ -247,6 +268,20 @@ def _grid_serial():
         for nth in (1, 2, 3):
           out.append({'kind': 'serial', 'tie': 'fifo', 'server': {'default': plan}, 'faults': [{'op': 'send', 'nth': nth, 'what': 'parthang'}],
                       'ops': [list(o) for o in ops], 'seed': 0, 'grid': True})
+  # second incarnation: the first life ends with Close() / a connection failure, the sink is opened again, and then the
+  # re-open itself, a write / read, or the re-connect after a deadline time-out fails; re-entrant failure callbacks
+  for end in (['close'], ['peer', 'close']):
+    for plan in ({'act': 'drop'}, {'act': 'reply', 'delay': 1}):
+      for onfail in (None, 'retry', 'close'):
+        ops = [['open'], ['req', 1, None, 1], ['adv', 3], list(end), ['req', 2, None, 1], ['adv', 3], ['open'], ['adv', 3],
+               ['req', 3, 6, 1, 0, onfail], ['req', 4, None, 1], ['adv', 10], ['req', 5, 5, 1, 0, onfail], ['adv', 10],
+               ['req', 90, None, 1], ['adv', 6]]
+        for f in ([], [{'op': 'connect', 'nth': 2, 'what': 'refuse'}], [{'op': 'connect', 'nth': 3, 'what': 'refuse'}],
+                  [{'op': 'connect', 'nth': 3, 'what': ['slow', 6, 0]}], [{'op': 'connect', 'nth': 4, 'what': 'refuse'}],
+                  [{'op': 'recv', 'nth': 3, 'what': 'eof'}], [{'op': 'send', 'nth': 2, 'what': 'exc'}],
+                  [{'op': 'send', 'nth': 3, 'what': 'exc'}], [{'op': 'recv', 'nth': 5, 'what': 'exc'}]):
+          out.append({'kind': 'serial', 'tie': 'fifo', 'server': {'default': plan, 'plan': {'1': {'act': 'reply', 'delay': 1}}},
+                      'faults': f, 'ops': [list(o) for o in ops], 'seed': 0, 'grid': True})
   for ops, plan in bases:
     for op, nths, kinds in (('connect', (1, 2, 3), CONNECT_FAULTS), ('send', (1, 2, 3), SEND_FAULTS),
                             ('recv', (1, 2, 3, 4, 5, 6, 7), RECV_FAULTS)):
@@ -275,6 +310,15 @@ def _grid_mux():
         ops.append(['expire', 2])
       ops += [['adv', 6], ['req', 50, None, 1], ['adv', 46 * TPS], ['req', 90, None, 1], ['adv', 4]]
       bases.append(ops)
+      if n >= 1 and mode != 'expired':
+        for onfail in ('retry', 'close'):
+          o2 = [list(o) for o in ops]
+          for o in o2:
+            if o[0] == 'req' and o[1] in (1, 2):
+              while len(o) < 5:
+                o.append(1 if len(o) == 3 else 0)
+              o.append(onfail)
+          bases.append(o2)
   for ops in bases:
     for plan in ({'act': 'reply', 'delay': 2}, {'act': 'drop'}):
       for ping in (True, 1):
@@ -448,18 +492,39 @@ def monitor(case, obs):
   per_conn = 0
   inc_fail = inc_faults = 0
   inc_closed = False
+  inc_no = 1
+  established = True       # the first incarnation must signal even a refused first connect (the pool relies on it);
+                           # a re-opened one once its own connect succeeded (a failed re-Open is reported by its result)
 
   def end_inc():
     if inc_fail and not inc_faults:
-      v.append(('fault-signal-missing', 'a connection failure happened but on_faulted was never notified'))
+      v.append(('fault-signal-missing', 'a connection failure happened in incarnation %d of the transport but on_faulted was '
+                'never notified' % inc_no))
+
+  def effective_open(p):
+    for q in range(p + 1, len(flat)):
+      x = flat[q][1]
+      if x[0] == 'run' and x[1] == '_SafeLinkHelper':
+        return True
+      if x[0] == 'api':
+        return False
+    return False
+  first_open = True
   for p, (k, e) in enumerate(flat):
-    if e[0] == 'api' and e[1] == 'open':
-      end_inc()
-      inc_fail = inc_faults = 0
-      inc_closed = False
+    if e[0] == 'api' and e[1] == 'open' and effective_open(p):
+      if first_open:
+        first_open = False
+      else:
+        end_inc()
+        inc_fail = inc_faults = 0
+        inc_closed = False
+        inc_no += 1
+        established = False
+    if e[0] == 'w' and e[1] == 'open-end' and e[2] == 'ok':
+      established = True
     if e[0] == 'io' and e[1] == 'connect-begin':
       per_conn = 0
-    if p in fl and not inc_closed:
+    if p in fl and not inc_closed and established:
       inc_fail += 1
     if e[0] == 'fault':
       inc_faults += 1
@@ -478,6 +543,10 @@ def monitor(case, obs):
       continue
     if not mux and inflight_at(rp):
       continue
+    if any(kk == k and pp < rp and ((x[0] == 'io' and len(x) > 2 and (x[1], x[2]) in IO_FAIL) or (x[0] == 'w' and x[1] == 'close')
+                                    or (x[0] == 'api' and x[1] == 'close'))
+           for pp, (kk, x) in enumerate(flat) if kk == k):
+      continue                     # issued from inside a failure callback: the transport no longer claims to be open
     if req_dl.get(c) is not None and req_dl[c] <= 0:
       continue                     # its deadline had already passed: it is answered with a time-out, not carried
     if not mux and [x for x in req_pos if req_pos[x][0] < rp and x not in rejected and not posts.get(x)]:
@@ -653,7 +722,7 @@ def serial_labels(obs):
             rstage = 'hdr'
         elif e[1] == 'close':
           woke = False
-          for j in range(i + 1, len(ev)):
+          for j in (range(i + 1, len(ev)) if cur is not None else ()):
             if ev[j][0] == 'w' and ev[j][1] in ('read-end', 'write-end'):
               if ev[j][2] != 'GreenletExit':
                 woke = True
@@ -699,6 +768,8 @@ def serial_labels(obs):
           wire.append(C.zlit(cur if cur is not None else -1))
       elif t == 'post':
         posts.append('(%s, %s)' % (C.zlit(e[1]), S_KIND[e[2]]))
+        if e[1] == cur:
+          cur = None
       elif t == 'fault':
         faults += 1
     out.append((labels, s['state'], posts, faults, wire))
